@@ -6,7 +6,7 @@ cd /verif
 [ $# -eq 0 ] && set -- selftest/C17/*.patch
 for p in "$@"; do
   git -C "$WT" checkout -q -- . && git -C "$WT" apply "$(realpath "$p")" || { echo "$p: does not apply"; continue; }
-  (cd "$WT" && GOFLAGS=-mod=mod GOPROXY=off GOSUMDB=off GOTOOLCHAIN=local go build ./internal/report/ ) || { echo "$p: does not compile"; continue; }
+  git -C "$WT" checkout -q --detach $(git -C /repo rev-parse HEAD); (cd "$WT" && GOFLAGS=-mod=mod GOPROXY=off GOSUMDB=off GOTOOLCHAIN=local go build ./internal/report/ ) || { echo "$p: does not compile"; continue; }
   out=$(VERIF_REPO="$WT" bin/check C17 2>&1); rc=$?
   echo "$(basename "$p"): exit=$rc $(echo "$out" | grep -c '^VIOLATION') violation line(s): $(echo "$out" | grep '^  # ' | head -3 | cut -c1-150 | tr '\n' '|')"
   git -C "$WT" checkout -q -- .
